@@ -328,6 +328,11 @@ func runCheck(spec *propSpec, tier string) int {
 	bin := buildTestBinary(work, spec)
 	replayDir := filepath.Join(root, "replays")
 	os.MkdirAll(replayDir, 0o755)
+	if old, _ := filepath.Glob(filepath.Join(replayDir, fmt.Sprintf("%s-%s-seed%d-s*.json", spec.ID, tier, seed))); len(old) > 0 {
+		for _, f := range old {
+			os.Remove(f)
+		}
+	}
 
 	violations := []string{}
 	known := []string{}
